@@ -142,7 +142,11 @@ func c20Digits(c *Ctx) {
 			return ok && b.Kind() == types.Uint64
 		}
 		for _, sign := range []string{"neg", "nonneg"} {
-			type iv struct{ lo, hi *big.Int; ret int64; p *Path }
+			type iv struct {
+				lo, hi *big.Int
+				ret    int64
+				p      *Path
+			}
 			var ivs []iv
 			ok := true
 			why := ""
@@ -793,7 +797,9 @@ func c20Util(c *Ctx) {
 	row := func(fi *FuncInfo, inst string, ok bool, good, bad string) {
 		c.R.Decide(ok, rule, fi.Name, inst, c.pos(fi), good, bad)
 	}
-	isZeroT := func(t *Term) bool { return t != nil && (t.Op == "zero" || (t.Op == "const" && (t.Sym == "0" || t.Sym == "nil" || t.Sym == `""` || t.Sym == "false"))) }
+	isZeroT := func(t *Term) bool {
+		return t != nil && (t.Op == "zero" || (t.Op == "const" && (t.Sym == "0" || t.Sym == "nil" || t.Sym == `""` || t.Sym == "false")))
+	}
 	// Zero, ZeroOf
 	for _, n := range []string{"typ.Zero", "typ.ZeroOf"} {
 		if fi := c.fn(rule, n); fi != nil {
